@@ -17,7 +17,10 @@ PROP = {
                   "and sets a definite value (it commutes with resolving a lazy value) commutes with save+load, everything else unchanged. "
                   "Umya/Thm/C04Edit.lean, edits that change WHICH cells exist: C04_edit_local_book_create (a written cell put at a coordinate the sheet has no cell at, anywhere in the collection, "
                   "with get_cell_mut's row record: normBook (create b) = create' (normBook b), so resave commutes; other sheets untouched; the sheet reads one cell more, the new coordinate reads the "
-                  "resolved new cell, every other coordinate reads what it read (lookup by coordinate); every old row record stays at its place, at most one default record is added; everything else equal), "
+                  "resolved new cell, every other coordinate reads what it read (lookup by coordinate); every old row record stays at its place, at most one default record is added, and the same for the column records (ensureRow / ensureCol = what get_cell_mut does); everything else equal), "
+                  "C04_edit_create_strings (the table a save writes = the items the cells register, in writing order, interned one after the other (writeBook_sst); with the new cell written between the items pre and post: "
+                  "both tables start with the table of pre (those indices do not move; later ones can move up by one), the new table holds exactly the old items plus the new cell's item, both tables without "
+                  "duplicates (so it grows by at most that string), and reading the written file back through the NEW table gives normalize of the edited cells: every cell resolves to its own value), "
                   "C04_edit_local_book_delete (remove_cell: the coordinate reads nothing, every other reads as before, all records and styles equal), C04_edit_local_book_blank (an edit leaving the cell blank and "
                   "unstyled = remove_cell after save+load), C04_edit_new_style_local (on C05's set_style model: replacing one cell's style by ANY style, new ones included, every other cell reads through its "
                   "(possibly renumbered) xf index the effective formatting of its own style, with and without the edit). C04_save_pure_book: one save+load does not depend on the save environment (authors hash-set order, first "
@@ -43,7 +46,7 @@ PROP = {
                         "C04_fixpoint_string_item", "C04_fixpoint_cell", "C04_fixpoint_cell_store",
                         "C04_workbook_fixpoint", "C04_workbook_resave_defined", "C04_workbook_generations",
                         "C04_save_pure_book", "C04_save_pure_cells", "C04_edit_local_book", "C04_edit_string_indices",
-                        "C04_edit_local_book_create", "C04_edit_local_book_delete", "C04_edit_local_book_blank", "C04_edit_new_style_local"],
+                        "C04_edit_local_book_create", "C04_edit_local_book_delete", "C04_edit_local_book_blank", "C04_edit_new_style_local", "C04_edit_create_strings"],
     "rule": "case = a generated annotated workbook (per-case seed; values with a non-identity normal form added through the setters: twist.* counters) or a corpus file; "
             "three load/save generations, a second save of generation 1, one single-cell edit; attr requests = one per sheet name and external hyperlink target; "
             "norm requests (generated workbooks; once original -> generation 1, once generation 1 -> generation 2) = per sheet one each for hf / margins / views / tab / cells, up to 8 fonts, up to 12 rows and 12 columns. "
@@ -61,12 +64,12 @@ PROP = {
                         "formatting + dxf table, sheet list, merges, comments (authors), hyperlinks",
                         "harness oracle only (gen1 == gen2 == gen3 on the full getter view, no model): drawings, charts, images, theme, pivot tables / caches, tables, VBA and other raw parts, printer-settings "
                         "blobs, rich-text comment bodies and their shapes, auto-filter columns, column / row style indices resolved through the style tables, document properties",
-                        "cell-creating / removing / blanking edits are proved on the cell lists and row records of the projection (C04Edit.lean) and tied by c04 edit requests (kept coordinates after reload, row records after "
-                        "get_cell_mut); NOT in the model: the column record get_cell_mut also creates (harness edit-not-local oracle only), the <dimension ref> attribute (not a field of the projection: no separate "
-                        "statement, it is a function of the cell list), the shared-string table under a creating edit beyond C04_edit_string_indices (one more cell written onto a table only appends; a cell "
-                        "inserted in the middle can reorder the items written after it: no theorem on the table as a set), rows that have neither cells nor attributes after a delete (not written: BookP lists the rows that persist)",
-                        "C04_edit_new_style_local is a statement on the C05 style-sheet model (indices into the tables, effective formatting); that the indices of other cells can really move is not exhibited by a "
-                        "proved example; in c04 the new-style edit is checked by the harness only (edit-not-local on the full view + every other cell's style object unchanged), the model side is C05's own tie",
+                        "cell-creating / removing / blanking edits are proved on the cell lists, row and column records of the projection (C04Edit.lean) and tied by c04 edit requests (kept coordinates after reload, row and column "
+                        "records after get_cell_mut in memory); NOT in the model: the <dimension ref> attribute (not a field of the projection: no separate statement, it is a function of the cell list), rows that have "
+                        "neither cells nor attributes after a delete and default column records after a save (not written: BookP lists the records that persist; harness edit-not-local oracle only); "
+                        "C04_edit_create_strings describes the index movement by the interning order (prefix stable, set, no duplicates, resolution), not by a closed formula for each moved index",
+                        "C04_edit_new_style_local is a statement on the C05 style-sheet model (indices into the tables, effective formatting; renumbering up and down exhibited by a decided example); in c04 the new-style "
+                        "edit is checked by the harness only (edit-not-local on the full view + every other cell's style object unchanged against the next generation), the model side is C05's own tie",
                         "the composition bytes -> tree -> model value is per part (C02_bytes_parse / C04_bytes_resave_stable for trees in normal form; C02/C03 validate the rest per file)"],
     "technique": "Lean 4: one generic fixed-point lemma for codecs with explicit idempotent normal forms, instantiated with every codec model (closure of the hypotheses under norm proved), composed into a "
                  "workbook-level theorem + generation-chain differential check with a per-family norm tie on generated files",
